@@ -58,12 +58,20 @@ var stageF = []string{
 	"Expression.Print",
 }
 
+// (G) maps with writes; equality theorems in Proofs/GenFnMapProofs.v.
+// MatchedVariables.Complete is NOT translated: it ranges over the map and tests v == nil, and the
+// representation of map[Variable]*Term (the keys with a non-nil value only) cannot express it.
+var stageG = []string{
+	"SymbolTable.IsDisjoint", "MatchedVariables.Insert",
+}
+
 func main() {
 	args := os.Args[1:]
 	whitelist = append(whitelist, unproved...)
 	whitelist = append(whitelist, stageD...)
 	whitelist = append(whitelist, stageE...)
 	whitelist = append(whitelist, stageF...)
+	whitelist = append(whitelist, stageG...)
 	if len(args) > 0 && args[0] == "-all" {
 		args = args[1:]
 	}
@@ -103,6 +111,9 @@ func main() {
 	b.WriteString("From BV Require Import Base Term Expr DTerm Symbols GoSem.\n")
 	if tr.needDEval {
 		b.WriteString("From BV Require Import DEval. (* dbindings, dlookup: the representation of map[Variable]*Term *)\n")
+	}
+	if tr.needGoMap {
+		b.WriteString("From BV Require Import GoMap. (* strset_empty/add/mem: map[string]struct{}; map_set: the write m[k] = &v *)\n")
 	}
 	b.WriteString("\n")
 	b.WriteString("Definition genfn_whitelist : list (list N) := (* names of the requested functions *)\n  [")
